@@ -20,8 +20,6 @@ UIDX = 5  # abstract documents of the stripe index (docset_driver::U)
 
 # stable texts of the findings recorded for this property (see known_findings.json)
 KF_BITSET = "BitSetDocSet: advance() after a seek past the last document resumes the iteration instead of staying TERMINATED"
-KF_PHRASE = ("PhraseScorer::seek_danger debug assertion `target >= doc()` is stricter than its callers: Exclude::contains and "
-             "BufferedUnionScorer::seek_danger probe a member with a smaller target (panic in builds with debug assertions)")
 KF_INTERCOUNT = "Intersection::count_including_deleted (dense path) consumes the set but leaves doc() on a stale document of its first leg (score() there can panic)"
 KF_UNIONFILL = "BufferedUnionScorer::fill_buffer leaves score() stale and does not clear the score combiners (scores of later documents are wrong)"
 
@@ -179,8 +177,6 @@ def classify(d):
     op = c.get("op")
     if op == "panic":
         msg = re.sub(r"\d+", "N", c.get("msg", ""))[:200]
-        if "should be greater than or equal to doc" in msg:
-            return "C13 DocSet: " + KF_PHRASE + f" [panic in {c.get('in')}: {msg}]"
         return f"C13 DocSet: panic in {c.get('in')}(): {msg}"
     prev = d["program"][: d["step"] - 1]
     if op == "advance" and d.get("pre") == TERMINATED and c.get("ret") != TERMINATED:
@@ -349,9 +345,6 @@ def known_finding_runs(ctx):
         # BitSetDocSet: seek past the end, then advance
         {"rich": RICH, "q": {"k": "set", "f": "title", "ts": ["t1", "t2"]}, "scoring": False,
          "progs": [[{"op": "seek", "t": TERMINATED}, {"op": "advance"}], [{"op": "advance"}, {"op": "seek", "t": 7000}, {"op": "advance"}]]},
-        # phrase scorer as an exclusion set: the plain enumeration already panics in a build with debug assertions
-        {"rich": RICH, "q": B([should({"k": "all"}), mustnot({"k": "phrase", "f": "title", "ts": ["t1", "t0"], "slop": 0})]), "scoring": False,
-         "progs": [[{"op": "advance"}]]},
         # Intersection::count_including_deleted, dense path (stripe index, 1025 documents per stripe)
         {"r": 1025, "q": B([must(T(0b10101)), must(irange(0b00100, "f"))]), "scoring": False, "progs": [[{"op": "fill_buffer"}, {"op": "count"}]]},
         # BufferedUnionScorer::fill_buffer and scores
@@ -366,7 +359,7 @@ def known_finding_runs(ctx):
     before = ctx.cov["traces_validated_against_impl"]
     validate(ctx, vlib.read_ndjson(tp), "kf", expect=seen)
     ctx.cov["traces_validated_against_impl"] = before  # these runs are reproductions, not coverage
-    rep = {"bitset": any(KF_BITSET in s for s in seen), "phrase": any(KF_PHRASE in s for s in seen), "unionfill": any(KF_UNIONFILL in s for s in seen),
+    rep = {"bitset": any(KF_BITSET in s for s in seen), "unionfill": any(KF_UNIONFILL in s for s in seen),
            "intersection_count": any(KF_INTERCOUNT in s for s in seen)}
     ctx.cov["recorded_findings_reproduced"] = rep
     for k, v in rep.items():
@@ -431,8 +424,7 @@ def run(ctx):
                         "the oracle sequence S is the plain-advance enumeration of a fresh scorer of the same weight (the property's own oracle); "
                         "in the R direction TLC also checks that S is exactly the stripes of the abstract set",
                         "scores of sums of more than two clauses are compared within 4n ulp (the order of summation is not fixed), all others bit for bit",
-                        "a seek_danger chain continues at or after the returned lower bound, as every caller in tantivy does",
-                        "the harness is built with debug assertions: a failing debug_assert of tantivy is a panic, hence an unexplained observation"]
+                        "the harness is a release build without debug assertions: only wrong values and release-build panics are observations"]
     model_checking(ctx)
     ev = replay_generated(ctx)
     if ctx.quick:
